@@ -39,6 +39,8 @@ var defs = map[string]checkDef{
 	"C03": {Engine: "A", Pkg: "./enga", MinEvals: 200},
 	"C04": {Engine: "A", Pkg: "./enga", MinEvals: 200},
 	"C12": {Engine: "A", Pkg: "./enga", MinEvals: 30000},
+	"C14": {Engine: "A", Pkg: "./enga", MinEvals: 1000},
+	"C15": {Engine: "A", Pkg: "./enga", MinEvals: 1000},
 	"C13": {Engine: "A", Pkg: "./enga", MinEvals: 132496, Exhaust: false},
 }
 
